@@ -464,6 +464,9 @@ def search(ctx):
                 rest = [x for j, x in enumerate(nodes) if j != victim]
                 fixed.append((vpc, [], [("adv", nodes), ("refuse", nodes[victim]), ("traffic",), ("adv", rest), ("accept", nodes[victim]), ("tick", 61), ("traffic",),
                                         ("tick", 200), ("traffic",), ("adv", rest)]))
+    # use_vpc is documented as a bool; 1 and 0 are the same values to Python (other objects are outside its domain: the code indexes with int(use_vpc))
+    for vpc in (1, 0):
+        fixed.append((vpc, [], [("adv", UNIVERSE[:3]), ("adv", UNIVERSE[1:4]), ("traffic",)]))
     # the version number in the reply is the endpoint's business: whatever it is (more digits than last time, lower than last time),
     # the advertised list is what counts
     for vpc in (True, False):
